@@ -262,9 +262,14 @@ class FnView(object):
       # a local that merely names an existing object (x = self.a.b) still is
       # that object after it was written through; a container built here
       # (x = [], x = dict(..)) is not its initial value any more
+      def names_existing(v_):
+        # self.a.b, x, self.a[k], d[k].c: an object that exists already
+        while isinstance(v_, (ast.Attribute, ast.Subscript)):
+          v_ = v_.value
+        return isinstance(v_, ast.Name)
       for k in mutated:
         v_ = val.get(k)
-        if not isinstance(v_, (ast.Attribute, ast.Name)):
+        if v_ is None or not names_existing(v_):
           bad.add(k)
       self._single = {k: v for k, v in val.items() if count[k] == 1 and k not in bad}
     return self._single
